@@ -269,7 +269,7 @@ def build_op(op, pool, tables, use_knobs=True):
     if o == "from_delayed":
         spec = tables[op["table"]]
         n = op["nblocks"]
-        parts = [dask.delayed(src_block_plain)(i, spec=spec, nblocks=n) for i in range(n)]
+        parts = [dask.delayed(src_block_plain, pure=True)(i, spec=spec, nblocks=n) for i in range(n)]
         meta = make_table(spec).iloc[:0]
         kw = {}
         if op.get("with_meta", True):
